@@ -1338,7 +1338,7 @@ Proof.
   intros [(_ & _ & Hk) _] H En (s & nd & E1 & E2 & E3 & R & Nd & B) Ep.
   pose proof (proj1 (ci_n2p _ _ H _ _ En)) as Hx.
   assert (Same : SNa a m X (bind_pod p c)).
-  { exists s, nd. repeat split; try assumption. unfold bind_pod; c_simpl.
+  { exists s, nd. do 5 (split; [assumption|]). unfold bind_pod; c_simpl.
     eapply (bind_clause a m p (binds c)); eauto.
     - intros key' Hne. apply aget_aset_other, Hne.
     - apply aget_aset_same. }
@@ -1355,23 +1355,26 @@ Proof.
   - (* the old binding points at m itself: the pod left m *)
     assert (old = m) by (eapply ci_n2p_inj; eauto; apply sget_some; assumption). subst old.
     rewrite Ex in *. assert (s0 = s) by congruence. subst s0.
-    exists (cleanup_for_pod (p_key p) s), nd. rewrite aget_aset_same.
-    repeat split; try assumption.
+    exists (cleanup_for_pod (p_key p) s), nd. c_simpl. rewrite aget_aset_same.
+    split; [reflexivity|]. split; [assumption|]. split; [assumption|]. split; [|split; [|exact BC]].
     + apply rebuilt_cleanup; try assumption. apply pod_on_other; [exact Ep|]. congruence.
     + apply nodupk_cleanup, Nd.
-  - exists s, nd. rewrite aget_aset_other by congruence. repeat split; assumption.
+  - exists s, nd. c_simpl. rewrite aget_aset_other by congruence. do 5 (split; [assumption|]). exact BC.
 Qed.
 
 (* populateResourceRequests of another node keeps a settled node settled *)
 Lemma populate_inv name l (Q : cache -> Prop) :
-  (forall k p c, In (k, p) l -> Q c -> Q (bind_pod p (cleanup_old_bindings p c))) ->
+  (forall k p c, In (k, p) l -> on_node name p = true -> Q c -> Q (bind_pod p (cleanup_old_bindings p c))) ->
   forall s c, Q c -> Q (snd (fold_left (populate_step name) l (s, c))).
 Proof.
   induction l as [|[k p] l IH]; intros Hstep s c Hq; simpl; [exact Hq|].
   unfold populate_step at 2. cbn [fst snd].
-  destruct ((p_node p =s name) && negb (p_term p)).
-  - apply IH; [intros; eapply Hstep; eauto; right; assumption|]. eapply Hstep; [left; reflexivity|exact Hq].
-  - apply IH; [intros; eapply Hstep; eauto; right; assumption|exact Hq].
+  assert (Hstep' : forall k0 p0 c0, In (k0, p0) l -> on_node name p0 = true -> Q c0 ->
+                     Q (bind_pod p0 (cleanup_old_bindings p0 c0)))
+    by (intros k0 p0 c0 Hin Hon Hq0; eapply Hstep; [right; exact Hin|exact Hon|exact Hq0]).
+  fold (on_node name p). destruct (on_node name p) eqn:Eon.
+  - apply IH; [exact Hstep'|]. eapply Hstep; [left; reflexivity|exact Eon|exact Hq].
+  - apply IH; [exact Hstep'|exact Hq].
 Qed.
 
 Lemma SNa_populate a m X c name s0 : api_ok a -> CohI a c -> aget m (n2p c) = Some X -> SNa a m X c ->
@@ -1379,7 +1382,7 @@ Lemma SNa_populate a m X c name s0 : api_ok a -> CohI a c -> aget m (n2p c) = So
 Proof.
   intros Hok H En Hs.
   apply (populate_inv name (a_pods a) (fun c' => CohI a c' /\ aget m (n2p c') = Some X /\ SNa a m X c')); [|auto].
-  intros k p c' Hin (H' & En' & Hs').
+  intros k p c' Hin _ (H' & En' & Hs').
   assert (Ep : aget (p_key p) (a_pods a) = Some p).
   { destruct Hok as [(_ & _ & Hk) _]. rewrite (proj2 Hk k p Hin). apply in_aget; [apply Hk|exact Hin]. }
   assert (S : same_ids c' (bind_pod p (cleanup_old_bindings p c'))).
@@ -1387,4 +1390,925 @@ Proof.
   split; [eapply CohI_same_ids; eauto|]. split.
   - destruct S as (_ & -> & _). exact En'.
   - apply SNa_cob_bind; assumption.
+Qed.
+
+Definition SN (a : api) (c : cache) (m : string) : Prop :=
+  match spec_n2p a m with
+  | Some X => aget m (n2p c) = Some X /\ SNa a m X c
+  | None => aget m (n2p c) = None
+  end.
+
+Lemma rebuilt_agg a m s s' : aggregates s' = aggregates s -> rebuilt a m s -> rebuilt a m s'.
+Proof. unfold aggregates, rebuilt. intros [= -> -> -> ->]. auto. Qed.
+
+Lemma SNa_transfer a m X c c' : SNa a m X c -> binds c' = binds c ->
+  (forall s, aget X (nodes c) = Some s ->
+     exists s', aget X (nodes c') = Some s' /\ sn_node s' = sn_node s /\ aggregates s' = aggregates s) ->
+  SNa a m X c'.
+Proof.
+  intros (s & nd & E1 & E2 & E3 & R & Nd & B) Hb Hs. destruct (Hs s E1) as (s' & F1 & F2 & F3).
+  exists s', nd. split; [exact F1|]. split; [exact E2|]. split; [congruence|].
+  split; [eapply rebuilt_agg; eauto|]. split.
+  - unfold aggregates in F3. injection F3 as -> _ _ _. exact Nd.
+  - rewrite Hb. exact B.
+Qed.
+
+Lemma SNa_same_entry a m X c c' : SNa a m X c -> binds c' = binds c -> aget X (nodes c') = aget X (nodes c) ->
+  SNa a m X c'.
+Proof.
+  intros H Hb Hn. eapply SNa_transfer; eauto. intros s E. exists s. rewrite Hn. auto.
+Qed.
+
+(* ---- pod deliveries keep a settled node settled ---- *)
+Lemma node_name_nonempty a m nd : api_ok a -> aget m (a_nodes a) = Some nd -> m <> "".
+Proof. intros [_ (_ & _ & H)] E. eapply H; eauto. Qed.
+
+Lemma SNa_completion a m X c key : api_ok a -> CohI a c -> aget m (n2p c) = Some X -> SNa a m X c ->
+  pod_on a m key = None -> SNa a m X (pod_completion key c).
+Proof.
+  intros [(_ & _ & Hk) _] H En (s & nd & E1 & E2 & E3 & R & Nd & B) Hnone.
+  pose proof (proj1 (ci_n2p _ _ H _ _ En)) as Hx.
+  unfold pod_completion. destruct (aget key (binds c)) as [nn|] eqn:Eb; [|exists s, nd; auto 10].
+  assert (BC : forall k p, pod_on a m k = Some p -> aget k (adel key (binds c)) = Some m).
+  { intros k p Hon. rewrite aget_adel_other; [eapply B; eauto|]. intros ->. congruence. }
+  destruct (aget (sget nn (n2p c)) (nodes c)) as [s0|] eqn:E0.
+  - destruct (string_dec (sget nn (n2p c)) X) as [Ex|Ex].
+    + rewrite Ex in *. assert (s0 = s) by congruence. subst s0.
+      exists (cleanup_for_pod key s), nd. c_simpl. rewrite aget_aset_same.
+      split; [reflexivity|]. split; [assumption|]. split; [assumption|]. split; [|split; [|exact BC]].
+      * apply rebuilt_cleanup; assumption.
+      * apply nodupk_cleanup, Nd.
+    + exists s, nd. c_simpl. rewrite aget_aset_other by congruence. do 5 (split; [assumption|]). exact BC.
+  - exists s, nd. c_simpl. do 5 (split; [assumption|]). exact BC.
+Qed.
+
+Lemma SNa_update_pod a m X c p : api_ok a -> CohI a c -> aget m (n2p c) = Some X -> SNa a m X c ->
+  aget (p_key p) (a_pods a) = Some p -> SNa a m X (update_pod p c).
+Proof.
+  intros Hok H En Hs Ep. pose proof Hs as (s & nd & E1 & E2 & E3 & R & Nd & B).
+  pose proof (proj1 (ci_n2p _ _ H _ _ En)) as Hx.
+  assert (Hm : m <> "") by (eapply node_name_nonempty; eauto).
+  unfold update_pod, update_pod_gen. destruct (p_term p) eqn:Et.
+  { apply SNa_completion; try assumption. unfold pod_on. rewrite Ep, Et, andb_false_r. reflexivity. }
+  destruct (p_node p =s "") eqn:E0; seq.
+  { apply SNa_completion; try assumption. apply pod_on_other; [exact Ep|congruence]. }
+  destruct (aget (sget (p_node p) (n2p c)) (nodes c)) as [s1|] eqn:E1'; [|exact Hs].
+  set (c1 := with_nodes c (aset (sget (p_node p) (n2p c)) (update_for_pod s1 p) (nodes c))).
+  assert (S1 : same_ids c c1) by (apply (same_ids_set c _ s1 (update_for_pod s1 p) E1'); reflexivity).
+  apply SNa_cob_bind; try assumption.
+  - eapply CohI_same_ids; eauto.
+  - subst c1. destruct (string_dec (sget (p_node p) (n2p c)) X) as [Ex|Ex].
+    + assert (p_node p = m) by (eapply ci_n2p_inj; eauto; apply sget_some; assumption).
+      rewrite Ex in *. assert (s1 = s) by congruence. subst s1.
+      exists (update_for_pod s p), nd. c_simpl. rewrite aget_aset_same.
+      split; [reflexivity|]. split; [assumption|]. split; [assumption|]. split; [|split; [|exact B]].
+      * destruct Hok as [(_ & _ & Hk) _]. apply rebuilt_update; try assumption.
+        unfold pod_on. rewrite Ep, Et. apply String.eqb_eq in H0. rewrite H0. reflexivity.
+      * apply nodupk_update, Nd.
+    + apply (SNa_same_entry a m X c); [exact Hs|reflexivity|]. c_simpl. apply aget_aset_other. congruence.
+Qed.
+
+(* ---- node deliveries of other nodes ---- *)
+Lemma SNa_cleanup_node a m X c m' : CohI a c -> aget m (n2p c) = Some X -> m' <> m -> SNa a m X c ->
+  SNa a m X (cleanup_node m' c) /\ aget m (n2p (cleanup_node m' c)) = Some X.
+Proof.
+  intros H En Hne Hs. destruct (aget m' (n2p c)) as [X'|] eqn:E'; [|rewrite cleanup_node_none; auto].
+  destruct (cleanup_node_some a c m' X' H E') as (s' & nd' & F1 & F2 & F3 & ->).
+  assert (Hx : X' <> X) by (intros ->; apply Hne; eapply ci_n2p_inj; eauto).
+  split.
+  - apply (SNa_same_entry a m X c); [exact Hs| |].
+    + destruct (sn_claim s'); reflexivity.
+    + destruct (sn_claim s'); c_simpl; [apply aget_aset_other|apply aget_adel_other]; congruence.
+  - c_simpl. destruct (sn_claim s'); c_simpl; rewrite aget_adel_other by congruence; exact En.
+Qed.
+
+Lemma un_c1_n2p a nd c : n2p (un_c1 a nd c) = n2p c.
+Proof. pose proof (same_ids_populate (n_name nd) (a_pods a) (un_n0 nd c) c) as (_ & S & _). exact S. Qed.
+
+Lemma SNa_update_node a m X c nd' : api_ok a -> CohI a c -> aget (n_name nd') (a_nodes a) = Some nd' ->
+  spec_n2p a m = Some X -> aget m (n2p c) = Some X -> n_name nd' <> m -> SNa a m X c ->
+  SNa a m X (update_node a nd' c) /\ aget m (n2p (update_node a nd' c)) = Some X.
+Proof.
+  intros Hok H Ea Hspec En Hne Hs.
+  destruct (trackable nd') eqn:Ht; [|unfold update_node, update_node_gen; rewrite Ht; auto].
+  destruct (un_c2_facts a nd' c H) as (H2 & O2 & N2).
+  rewrite update_node_eq by (assumption || apply H2).
+  pose proof (same_ids_populate (n_name nd') (a_pods a) (un_n0 nd' c) c) as S1. fold (un_c1 a nd' c) in S1.
+  pose proof (CohI_same_ids a _ _ S1 H) as H1.
+  assert (En1 : aget m (n2p (un_c1 a nd' c)) = Some X) by (rewrite un_c1_n2p; exact En).
+  assert (Hs1 : SNa a m X (un_c1 a nd' c)) by (apply SNa_populate; assumption).
+  assert (Hs2 : SNa a m X (un_c2 a nd' c) /\ aget m (n2p (un_c2 a nd' c)) = Some X).
+  { unfold un_c2. destruct (aget (n_name nd') (n2p (un_c1 a nd' c))) as [id|]; [|auto].
+    destruct (id =s epid nd'); [auto|]. apply SNa_cleanup_node; assumption. }
+  destruct Hs2 as [Hs2 En2].
+  (* the provider id of nd' is not X *)
+  assert (Hx : epid nd' <> X).
+  { unfold spec_n2p in Hspec. destruct (aget m (a_nodes a)) as [ndm|] eqn:Em; [|discriminate].
+    destruct (trackable ndm) eqn:Htm; [|discriminate]. injection Hspec as Hspec.
+    intros Heq. apply Hne. destruct Hok as [_ (U & _ & _)]. eapply (U _ _ nd' ndm); eauto. congruence. }
+  split.
+  - apply (SNa_same_entry a m X (un_c2 a nd' c)); [exact Hs2|reflexivity|]. c_simpl. apply aget_aset_other. congruence.
+  - c_simpl. rewrite aget_aset_other by congruence. exact En2.
+Qed.
+
+(* ---- claim deliveries ---- *)
+Lemma SNa_cleanup_claim a m X c k : CohI a c -> SNa a m X c -> SNa a m X (cleanup_claim k c).
+Proof.
+  intros H Hs. destruct (sget k (c2p c) =s "") eqn:E0.
+  { seq. rewrite cleanup_claim_unlaunched, (ci_np _ _ H) by assumption.
+    apply (SNa_same_entry a m X c); auto. }
+  assert (exists X', aget k (c2p c) = Some X' /\ X' <> "") as (X' & E & Hx).
+  { unfold sget in E0. destruct (aget k (c2p c)) as [X'|]; [|discriminate]. exists X'. seq. auto. }
+  destruct (cleanup_claim_some a c k X' H E Hx) as (s' & cl & E1 & E2 & E3 & ->).
+  destruct (string_dec X' X) as [->|Hne].
+  - destruct Hs as (s & nd & F1 & F2 & F3 & R). assert (s' = s) by congruence. subst s'.
+    rewrite F3. eapply (SNa_transfer a m X c); [exists s, nd; auto|reflexivity|].
+    intros s0 F0. assert (s0 = s) by congruence. subst s0.
+    exists (drop_claim s). c_simpl. rewrite aget_aset_same. auto.
+  - apply (SNa_same_entry a m X c); [exact Hs| |].
+    + destruct (sn_node s'); reflexivity.
+    + destruct (sn_node s'); c_simpl; [apply aget_aset_other|apply aget_adel_other]; congruence.
+Qed.
+
+Lemma SNa_update_claim a m X c cl : CohI a c -> SNa a m X c -> SNa a m X (update_claim cl c).
+Proof.
+  intros H Hs. destruct (c_pid cl =s "") eqn:Ep; seq.
+  { rewrite update_claim_unlaunched by (assumption || apply H). apply (SNa_same_entry a m X c); auto. }
+  destruct (uc_c1_facts a cl c H Ep) as (H1 & O1 & N1).
+  rewrite update_claim_eq by (assumption || apply H1).
+  assert (Hs1 : SNa a m X (uc_c1 cl c)).
+  { unfold uc_c1. destruct (aget (c_name cl) (c2p c)) as [id|]; [|exact Hs].
+    destruct (id =s c_pid cl); [exact Hs|]. apply SNa_cleanup_claim; assumption. }
+  destruct (string_dec (c_pid cl) X) as [Ex|Ex].
+  - (* the claim joins the settled entry: node and aggregates are carried over *)
+    destruct Hs as (s & nd & F1 & F2 & F3 & R & Nd & B).
+    destruct Hs1 as (s1 & nd1 & G1 & G2 & G3 & R1 & Nd1 & B1).
+    exists (uc_n cl c), nd. c_simpl. rewrite Ex, aget_aset_same.
+    assert (Eo : uc_old cl c = s) by (unfold uc_old; rewrite Ex, F1; reflexivity).
+    unfold uc_n. rewrite Eo. cbn [sn_node sn_pods].
+    split; [reflexivity|]. split; [assumption|]. split; [assumption|]. split; [|split; [exact Nd|exact B1]].
+    eapply rebuilt_agg; [|exact R]. reflexivity.
+  - apply (SNa_same_entry a m X (uc_c1 cl c)); [exact Hs1|reflexivity|]. c_simpl. apply aget_aset_other. congruence.
+Qed.
+
+Lemma cleanup_claim_n2p a k c : CohI a c -> n2p (cleanup_claim k c) = n2p c.
+Proof.
+  intros H. destruct (sget k (c2p c) =s "") eqn:E0.
+  { seq. rewrite cleanup_claim_unlaunched, (ci_np _ _ H) by assumption. reflexivity. }
+  assert (exists X', aget k (c2p c) = Some X' /\ X' <> "") as (X' & E & Hx).
+  { unfold sget in E0. destruct (aget k (c2p c)) as [X'|]; [|discriminate]. exists X'. seq. auto. }
+  destruct (cleanup_claim_some a c k X' H E Hx) as (s' & cl & _ & _ & _ & ->).
+  destruct (sn_node s'); reflexivity.
+Qed.
+
+Lemma same_claim_n2p a cl c : CohI a c -> n2p (update_claim cl c) = n2p c.
+Proof.
+  intros H. destruct (c_pid cl =s "") eqn:Ep; seq.
+  { rewrite update_claim_unlaunched by (assumption || apply H). reflexivity. }
+  destruct (uc_c1_facts a cl c H Ep) as (H1 & _ & _).
+  rewrite update_claim_eq by (assumption || apply H1). c_simpl.
+  unfold uc_c1. destruct (aget (c_name cl) (c2p c)); [|reflexivity].
+  destruct (s =s c_pid cl); [reflexivity|]. apply (cleanup_claim_n2p a). exact H.
+Qed.
+
+(* ---- delivering the node itself ---- *)
+Lemma binds_cob_other p c key : key <> p_key p ->
+  aget key (binds (bind_pod p (cleanup_old_bindings p c))) = aget key (binds c).
+Proof.
+  intros Hne. unfold bind_pod; c_simpl. rewrite aget_aset_other by assumption.
+  unfold cleanup_old_bindings. destruct (aget (p_key p) (binds c)); [|reflexivity].
+  destruct (s =s p_node p); [reflexivity|]. destruct (aget (sget s (n2p c)) (nodes c)); [|reflexivity].
+  c_simpl. apply aget_adel_other, Hne.
+Qed.
+
+Lemma populate_binds_other name l : (forall k p, In (k, p) l -> p_key p = k) -> forall s c key,
+  ~ In key (map fst l) ->
+  aget key (binds (snd (fold_left (populate_step name) l (s, c)))) = aget key (binds c).
+Proof.
+  induction l as [|[k p] l IH]; intros Hkey s c key Hnin; simpl; [reflexivity|].
+  unfold populate_step at 2. cbn [fst snd]. simpl in Hnin.
+  assert (Hkey' : forall k0 p0, In (k0, p0) l -> p_key p0 = k0) by (intros; apply Hkey; right; assumption).
+  destruct ((p_node p =s name) && negb (p_term p)).
+  - rewrite (IH Hkey') by tauto. apply binds_cob_other. rewrite (Hkey k p) by (left; reflexivity).
+    intros ->. apply Hnin. left. reflexivity.
+  - apply (IH Hkey'). tauto.
+Qed.
+
+Lemma populate_binds name l : keyed p_key l -> forall s c key p,
+  lookup_on name key l = Some p ->
+  aget key (binds (snd (fold_left (populate_step name) l (s, c)))) = Some name.
+Proof.
+  induction l as [|[k p0] l IH]; intros Hk s c key p Hl; [discriminate|].
+  destruct (keyed_cons_inv _ _ _ _ Hk) as (Hkey & Hnone & Hk').
+  rewrite lookup_on_cons in Hl. simpl. unfold populate_step at 2. cbn [fst snd].
+  destruct (key =s k) eqn:E; seq.
+  - fold (on_node name p0). destruct (on_node name p0) eqn:Eon; [|discriminate].
+    rewrite populate_binds_other; [| apply Hk' | apply aget_none_notin, Hnone].
+    unfold bind_pod; c_simpl. rewrite Hkey, aget_aset_same.
+    unfold on_node in Eon. apply andb_true_iff in Eon. destruct Eon as [Eon _]. seq. congruence.
+  - destruct ((p_node p0 =s name) && negb (p_term p0)); eapply IH; eauto.
+Qed.
+
+Lemma SN_deliver_node a c m : api_ok a -> CohI a c -> SN a (deliver_node a m c) m.
+Proof.
+  intros Hok H. unfold SN, spec_n2p, deliver_node, deliver_node_gen. cbn [current v_keep_aggs].
+  fold cleanup_node. fold update_node.
+  destruct (aget m (a_nodes a)) as [nd|] eqn:Ea.
+  - destruct (epid_nonempty a _ _ Hok Ea) as [Hpid Hname].
+    destruct (trackable nd) eqn:Ht.
+    + (* rebuilt *)
+      assert (Ea' : aget (n_name nd) (a_nodes a) = Some nd) by (rewrite Hname; exact Ea).
+      destruct (un_c2_facts a nd c H) as (H2 & O2 & N2).
+      rewrite update_node_eq by (assumption || apply H2). c_simpl. rewrite Hname, aget_aset_same.
+      split; [reflexivity|]. exists (un_n1 a nd c), nd. c_simpl. rewrite aget_aset_same.
+      destruct Hok as [(Hwn & Hwc & Hk) Hu].
+      destruct (pop_ident (n_name nd) (a_pods a) (un_n0 nd c)) as (I1 & _ & _).
+      split; [reflexivity|]. split; [exact Ea|]. split; [exact I1|]. split; [|split].
+      * rewrite <- Hname. apply populated_rebuilt; auto.
+      * apply nodupk_pop. constructor.
+      * intros key p Hon.
+        assert (B1 : aget key (binds (un_c1 a nd c)) = Some m).
+        { rewrite <- Hname. unfold un_c1. eapply populate_binds; [exact Hk|]. rewrite <- pod_on_lookup, Hname. exact Hon. }
+        unfold un_c2. destruct (aget (n_name nd) (n2p (un_c1 a nd c))) as [id|] eqn:En1; [|exact B1].
+        destruct (id =s epid nd); [exact B1|].
+        assert (H1 : CohI a (un_c1 a nd c)).
+        { eapply CohI_same_ids; [|exact H]. apply same_ids_populate. }
+        destruct (cleanup_node_some a _ _ _ H1 En1) as (s' & nd' & _ & _ & _ & ->).
+        destruct (sn_claim s'); exact B1.
+    + (* not trackable: ignored, and the cache never tracked it *)
+      unfold update_node, update_node_gen. rewrite Ht. cbn [negb].
+      destruct (aget m (n2p c)) as [X|] eqn:En; [|reflexivity].
+      pose proof (ci_track _ _ H _ _ _ En Ea). congruence.
+  - destruct (aget m (n2p c)) as [X|] eqn:En; [|rewrite cleanup_node_none; assumption].
+    destruct (cleanup_node_some a c m X H En) as (s & nd & _ & _ & _ & ->). c_simpl. apply aget_adel_same.
+Qed.
+
+Definition is_deliver (o : op) : Prop :=
+  match o with DeliverNode _ | DeliverClaim _ | DeliverPod _ => True | _ => False end.
+
+Lemma SN_preserved a c m o : api_ok a -> CohI a c -> is_deliver o -> SN a c m -> SN a (cache_step a c o) m.
+Proof.
+  intros Hok H Ho Hs. unfold cache_step, cache_step_gen. rewrite (ci_np _ _ H).
+  destruct o; try contradiction.
+  - (* a node *)
+    destruct (string_dec name m) as [->|Hne]; [apply SN_deliver_node; assumption|].
+    unfold SN in *. unfold deliver_node_gen. cbn [current v_keep_aggs]. fold cleanup_node. fold update_node.
+    destruct (spec_n2p a m) as [X|] eqn:Hspec.
+    + destruct Hs as [En Hs]. destruct (aget name (a_nodes a)) as [nd'|] eqn:Ea.
+      * destruct (epid_nonempty a _ _ Hok Ea) as [_ Hname].
+        assert (aget m (n2p (update_node a nd' c)) = Some X /\ SNa a m X (update_node a nd' c)); [|tauto].
+        apply and_comm. apply SNa_update_node; try assumption; rewrite Hname; assumption.
+      * apply and_comm. apply SNa_cleanup_node; assumption.
+    + destruct (aget name (a_nodes a)) as [nd'|] eqn:Ea.
+      * destruct (epid_nonempty a _ _ Hok Ea) as [_ Hname].
+        destruct (trackable nd') eqn:Ht; [|unfold update_node, update_node_gen; rewrite Ht; exact Hs].
+        destruct (un_c2_facts a nd' c H) as (H2 & O2 & N2).
+        rewrite update_node_eq by (assumption || apply H2). c_simpl.
+        rewrite aget_aset_other by congruence.
+        unfold un_c2. destruct (aget (n_name nd') (n2p (un_c1 a nd' c))) as [id|] eqn:En1; [|rewrite un_c1_n2p; exact Hs].
+        destruct (id =s epid nd'); [rewrite un_c1_n2p; exact Hs|].
+        assert (H1 : CohI a (un_c1 a nd' c)).
+        { eapply CohI_same_ids; [|exact H]. apply same_ids_populate. }
+        destruct (cleanup_node_some a _ _ _ H1 En1) as (s' & nd'' & _ & _ & _ & ->). c_simpl.
+        rewrite aget_adel_other by congruence. rewrite un_c1_n2p. exact Hs.
+      * destruct (aget name (n2p c)) as [X'|] eqn:En'; [|rewrite cleanup_node_none; assumption].
+        destruct (cleanup_node_some a c name X' H En') as (s' & nd'' & _ & _ & _ & ->). c_simpl.
+        rewrite aget_adel_other by congruence. exact Hs.
+  - (* a claim: the node name map and the bindings are untouched *)
+    unfold SN in *. unfold deliver_claim_gen. cbn [current v_drop_costs negb]. fold update_claim.
+    assert (N : forall cl, n2p (update_claim cl c) = n2p c) by (intros cl; apply (same_claim_n2p a); exact H).
+    assert (N' : n2p (cleanup_claim name c) = n2p c) by (apply (cleanup_claim_n2p a); exact H).
+    destruct (spec_n2p a m) as [X|].
+    + destruct Hs as [En Hs]. destruct (aget name (a_claims a)) as [cl|].
+      * rewrite N. split; [exact En|apply SNa_update_claim; assumption].
+      * rewrite N'. split; [exact En|apply SNa_cleanup_claim; assumption].
+    + destruct (aget name (a_claims a)) as [cl|]; [rewrite N|rewrite N']; exact Hs.
+  - (* a pod *)
+    unfold SN in *. unfold deliver_pod_gen. cbn [current v_pending_noop]. fold update_pod.
+    destruct (spec_n2p a m) as [X|].
+    + destruct Hs as [En Hs]. destruct (aget key (a_pods a)) as [p|] eqn:Ep.
+      * assert (Hkey : p_key p = key).
+        { destruct Hok as [(_ & _ & Hk) _]. apply (proj2 Hk). apply aget_in, Ep. }
+        destruct (same_ids_update_pod p c) as (_ & -> & _). split; [exact En|].
+        apply SNa_update_pod; try assumption. rewrite Hkey. exact Ep.
+      * destruct (same_ids_completion key c) as (_ & -> & _). split; [exact En|].
+        apply SNa_completion; try assumption. unfold pod_on. rewrite Ep. reflexivity.
+    + destruct (aget key (a_pods a)) as [p|].
+      * destruct (same_ids_update_pod p c) as (_ & -> & _). exact Hs.
+      * destruct (same_ids_completion key c) as (_ & -> & _). exact Hs.
+Qed.
+
+(* ================= settled NodeClaims ================= *)
+Definition oclaim (Y : string) (c : cache) : option claimobj :=
+  match aget Y (nodes c) with Some s => sn_claim s | None => None end.
+
+Definition SC (a : api) (c : cache) (k : string) : Prop :=
+  match aget k (a_claims a) with
+  | Some cl => aget k (c2p c) = Some (c_pid cl) /\ (c_pid cl <> "" -> oclaim (c_pid cl) c = Some cl)
+  | None => aget k (c2p c) = None
+  end.
+
+Lemma oclaim_same_ids Y c c' : same_ids c c' -> oclaim Y c' = oclaim Y c.
+Proof.
+  intros (_ & _ & _ & O). specialize (O Y). unfold oid, oclaim in *.
+  destruct (aget Y (nodes c')) as [s'|], (aget Y (nodes c)) as [s|]; simpl in O; try discriminate; [|reflexivity].
+  assert (Hi : ident s' = ident s) by congruence. apply ident_fields in Hi. apply Hi.
+Qed.
+
+Lemma oclaim_cleanup_node a Y c m cl : CohI a c -> oclaim Y c = Some cl -> oclaim Y (cleanup_node m c) = Some cl.
+Proof.
+  intros H Ho. destruct (aget m (n2p c)) as [X|] eqn:E; [|rewrite cleanup_node_none; assumption].
+  destruct (cleanup_node_some a c m X H E) as (s & nd & F1 & F2 & F3 & ->).
+  unfold oclaim in *. destruct (sn_claim s) as [cl0|] eqn:EC; c_simpl.
+  - rewrite aget_aset. destruct (Y =s X) eqn:Ey; seq; [|exact Ho]. rewrite F1 in Ho. simpl. congruence.
+  - rewrite aget_adel. destruct (Y =s X) eqn:Ey; seq; [|exact Ho]. rewrite F1 in Ho. congruence.
+Qed.
+
+Lemma oclaim_update_node a Y c nd cl : CohI a c -> oclaim Y c = Some cl -> oclaim Y (update_node a nd c) = Some cl.
+Proof.
+  intros H Ho. destruct (trackable nd) eqn:Ht; [|unfold update_node, update_node_gen; rewrite Ht; exact Ho].
+  destruct (un_c2_facts a nd c H) as (H2 & O2 & N2).
+  rewrite update_node_eq by (assumption || apply H2).
+  pose proof (same_ids_populate (n_name nd) (a_pods a) (un_n0 nd c) c) as S1. fold (un_c1 a nd c) in S1.
+  assert (Ho2 : oclaim Y (un_c2 a nd c) = Some cl).
+  { unfold un_c2. destruct (aget (n_name nd) (n2p (un_c1 a nd c))); [|rewrite (oclaim_same_ids _ _ _ S1); exact Ho].
+    destruct (s =s epid nd); [rewrite (oclaim_same_ids _ _ _ S1); exact Ho|].
+    eapply oclaim_cleanup_node; [eapply CohI_same_ids; eauto|]. rewrite (oclaim_same_ids _ _ _ S1). exact Ho. }
+  unfold oclaim. c_simpl. rewrite aget_aset. destruct (Y =s epid nd) eqn:Ey; seq; [|exact Ho2].
+  destruct (pop_ident (n_name nd) (a_pods a) (un_n0 nd c)) as (_ & I2 & _). unfold un_n1. rewrite I2.
+  unfold un_n0, un_old. cbn [sn_claim]. unfold oclaim in Ho. destruct (aget (epid nd) (nodes c)); [exact Ho|discriminate].
+Qed.
+
+Lemma cleanup_claim_other a c k k' Y cl : CohI a c -> k' <> k -> aget k (c2p c) = Some Y ->
+  (Y <> "" -> oclaim Y c = Some cl) ->
+  aget k (c2p (cleanup_claim k' c)) = Some Y /\ (Y <> "" -> oclaim Y (cleanup_claim k' c) = Some cl).
+Proof.
+  intros H Hne Ek Ho. destruct (sget k' (c2p c) =s "") eqn:E0.
+  { seq. rewrite cleanup_claim_unlaunched, (ci_np _ _ H) by assumption. c_simpl.
+    rewrite aget_adel_other by congruence. auto. }
+  assert (exists X', aget k' (c2p c) = Some X' /\ X' <> "") as (X' & E & Hx).
+  { unfold sget in E0. destruct (aget k' (c2p c)) as [X'|]; [|discriminate]. exists X'. seq. auto. }
+  destruct (cleanup_claim_some a c k' X' H E Hx) as (s' & cl' & F1 & F2 & F3 & ->).
+  assert (Hy : X' <> Y) by (intros ->; apply Hne; eapply ci_c2p_inj; eauto).
+  split.
+  - c_simpl. destruct (sn_node s'); c_simpl; rewrite aget_adel_other by congruence; exact Ek.
+  - intros Hyn. specialize (Ho Hyn). unfold oclaim in *.
+    destruct (sn_node s'); c_simpl; [rewrite aget_aset_other by congruence|rewrite aget_adel_other by congruence]; exact Ho.
+Qed.
+
+Lemma SC_deliver_claim a c k : api_ok a -> CohI a c -> SC a (deliver_claim a k c) k.
+Proof.
+  intros Hok H. unfold SC, deliver_claim, deliver_claim_gen. cbn [current v_drop_costs negb]. fold update_claim.
+  destruct (aget k (a_claims a)) as [cl|] eqn:Ea.
+  - pose proof (claim_named a _ _ Hok Ea) as Hn.
+    destruct (c_pid cl =s "") eqn:Ep; seq.
+    + rewrite update_claim_unlaunched by (assumption || apply H). c_simpl. rewrite Hn, Ep, aget_aset_same. split; [reflexivity|congruence].
+    + destruct (uc_c1_facts a cl c H Ep) as (H1 & _ & _).
+      rewrite update_claim_eq by (assumption || apply H1). c_simpl. rewrite Hn, aget_aset_same.
+      split; [reflexivity|]. intros _. unfold oclaim; c_simpl. rewrite aget_aset_same. reflexivity.
+  - destruct (sget k (c2p c) =s "") eqn:E0.
+    { seq. rewrite cleanup_claim_unlaunched, (ci_np _ _ H) by assumption. c_simpl. apply aget_adel_same. }
+    assert (exists X', aget k (c2p c) = Some X' /\ X' <> "") as (X' & E & Hx).
+    { unfold sget in E0. destruct (aget k (c2p c)) as [X'|]; [|discriminate]. exists X'. seq. auto. }
+    destruct (cleanup_claim_some a c k X' H E Hx) as (s' & cl' & _ & _ & _ & ->). c_simpl. apply aget_adel_same.
+Qed.
+
+Lemma SC_preserved a c k o : api_ok a -> CohI a c -> is_deliver o -> SC a c k -> SC a (cache_step a c o) k.
+Proof.
+  intros Hok H Ho Hs. unfold cache_step, cache_step_gen. rewrite (ci_np _ _ H).
+  destruct o; try contradiction.
+  - (* a node: claim name map untouched, claim fields kept *)
+    unfold deliver_node_gen. cbn [current v_keep_aggs]. fold cleanup_node. fold update_node.
+    assert (C1 : forall nd, c2p (update_node a nd c) = c2p c).
+    { intros nd. destruct (trackable nd) eqn:Ht; [|unfold update_node, update_node_gen; rewrite Ht; reflexivity].
+      destruct (un_c2_facts a nd c H) as (H2 & _ & _). rewrite update_node_eq by (assumption || apply H2). c_simpl.
+      pose proof (same_ids_populate (n_name nd) (a_pods a) (un_n0 nd c) c) as S1. fold (un_c1 a nd c) in S1.
+      assert (H1 : CohI a (un_c1 a nd c)) by (eapply CohI_same_ids; eauto).
+      destruct S1 as (_ & _ & S1 & _).
+      unfold un_c2. destruct (aget (n_name nd) (n2p (un_c1 a nd c))) as [id|] eqn:En1; [|exact S1].
+      destruct (id =s epid nd); [exact S1|].
+      destruct (cleanup_node_some a _ _ _ H1 En1) as (s' & nd' & _ & _ & _ & ->). destruct (sn_claim s'); exact S1. }
+    assert (C2 : c2p (cleanup_node name c) = c2p c).
+    { destruct (aget name (n2p c)) as [X|] eqn:E; [|rewrite cleanup_node_none; auto].
+      destruct (cleanup_node_some a c name X H E) as (s' & nd' & _ & _ & _ & ->). destruct (sn_claim s'); reflexivity. }
+    unfold SC in *. destruct (aget k (a_claims a)) as [cl|].
+    + destruct Hs as [Ek Ho']. destruct (aget name (a_nodes a)) as [nd|].
+      * rewrite C1. split; [exact Ek|]. intros Hp. eapply oclaim_update_node; eauto.
+      * rewrite C2. split; [exact Ek|]. intros Hp. eapply oclaim_cleanup_node; eauto.
+    + destruct (aget name (a_nodes a)) as [nd|]; [rewrite C1|rewrite C2]; exact Hs.
+  - (* a claim *)
+    destruct (string_dec name k) as [->|Hne]; [apply SC_deliver_claim; assumption|].
+    unfold deliver_claim_gen. cbn [current v_drop_costs negb]. fold update_claim.
+    unfold SC in *. destruct (aget k (a_claims a)) as [cl|] eqn:Eak.
+    + destruct Hs as [Ek Ho'].
+      destruct (aget name (a_claims a)) as [cl'|] eqn:Ea'; [|apply (cleanup_claim_other a); assumption].
+      pose proof (claim_named a _ _ Hok Ea') as Hn'.
+      destruct (c_pid cl' =s "") eqn:Ep; seq.
+      * rewrite update_claim_unlaunched by (assumption || apply H). c_simpl.
+        rewrite aget_aset_other by congruence. auto.
+      * destruct (uc_c1_facts a cl' c H Ep) as (H1 & _ & _).
+        rewrite update_claim_eq by (assumption || apply H1). c_simpl.
+        assert (Q : aget k (c2p (uc_c1 cl' c)) = Some (c_pid cl) /\ (c_pid cl <> "" -> oclaim (c_pid cl) (uc_c1 cl' c) = Some cl)).
+        { unfold uc_c1. destruct (aget (c_name cl') (c2p c)); [|auto].
+          destruct (s =s c_pid cl'); [auto|]. apply (cleanup_claim_other a); try assumption. congruence. }
+        destruct Q as [Q1 Q2]. rewrite aget_aset_other by congruence. split; [exact Q1|].
+        intros Hp. unfold oclaim. c_simpl. rewrite aget_aset_other; [apply Q2, Hp|].
+        intros Heq. apply Hne. destruct Hok as [_ (_ & U & _)]. symmetry in Heq.
+        rewrite <- Hn'. eapply (U _ _ cl' cl); eauto. rewrite Hn'. exact Ea'.
+    + destruct (aget name (a_claims a)) as [cl'|] eqn:Ea'.
+      * pose proof (claim_named a _ _ Hok Ea') as Hn'.
+        destruct (c_pid cl' =s "") eqn:Ep; seq.
+        -- rewrite update_claim_unlaunched by (assumption || apply H). c_simpl. rewrite aget_aset_other by congruence. exact Hs.
+        -- destruct (uc_c1_facts a cl' c H Ep) as (H1 & _ & _).
+           rewrite update_claim_eq by (assumption || apply H1). c_simpl. rewrite aget_aset_other by congruence.
+           unfold uc_c1. destruct (aget (c_name cl') (c2p c)) as [id|] eqn:Ec; [|exact Hs].
+           destruct (id =s c_pid cl'); [exact Hs|]. rewrite Hn' in *.
+           destruct (sget name (c2p c) =s "") eqn:E0.
+           { seq. rewrite cleanup_claim_unlaunched, (ci_np _ _ H) by assumption. c_simpl. rewrite aget_adel_other by congruence. exact Hs. }
+           assert (id <> "") by (unfold sget in E0; rewrite Ec in E0; seq; assumption).
+           destruct (cleanup_claim_some a c name id H Ec) as (s' & cl'' & _ & _ & _ & ->); [assumption|].
+           c_simpl. destruct (sn_node s'); c_simpl; rewrite aget_adel_other by congruence; exact Hs.
+      * destruct (sget name (c2p c) =s "") eqn:E0.
+        { seq. rewrite cleanup_claim_unlaunched, (ci_np _ _ H) by assumption. c_simpl. rewrite aget_adel_other by congruence. exact Hs. }
+        assert (exists X', aget name (c2p c) = Some X' /\ X' <> "") as (X' & E & Hx).
+        { unfold sget in E0. destruct (aget name (c2p c)) as [X'|]; [|discriminate]. exists X'. seq. auto. }
+        destruct (cleanup_claim_some a c name X' H E Hx) as (s' & cl'' & _ & _ & _ & ->).
+        c_simpl. destruct (sn_node s'); c_simpl; rewrite aget_adel_other by congruence; exact Hs.
+  - (* a pod *)
+    unfold deliver_pod_gen. cbn [current v_pending_noop]. fold update_pod.
+    assert (S : same_ids c (match aget key (a_pods a) with Some p => update_pod p c | None => pod_completion key c end)).
+    { destruct (aget key (a_pods a)); [apply same_ids_update_pod|apply same_ids_completion]. }
+    unfold SC in *. pose proof (oclaim_same_ids) as OS. destruct S as (S0 & S1 & S2 & S3).
+    destruct (aget k (a_claims a)) as [cl|].
+    + destruct Hs as [Ek Ho']. rewrite S2. split; [exact Ek|]. intros Hp.
+      rewrite (OS _ c); [apply Ho', Hp|]. repeat split; assumption.
+    + rewrite S2. exact Hs.
+Qed.
+
+(* ================= pods that are gone, terminal or pending have no binding ================= *)
+Definition unbound (a : api) (key : string) : bool :=
+  match aget key (a_pods a) with Some p => p_term p || (p_node p =s "") | None => true end.
+
+Definition SP (a : api) (c : cache) (key : string) : Prop := unbound a key = true -> aget key (binds c) = None.
+
+Lemma completion_binds key c : aget key (binds (pod_completion key c)) = None.
+Proof.
+  unfold pod_completion. destruct (aget key (binds c)) eqn:E; [|exact E].
+  destruct (aget (sget s (n2p c)) (nodes c)); c_simpl; apply aget_adel_same.
+Qed.
+
+Lemma completion_binds_other key key' c : key <> key' -> aget key (binds (pod_completion key' c)) = aget key (binds c).
+Proof.
+  intros Hne. unfold pod_completion. destruct (aget key' (binds c)) eqn:E; [|reflexivity].
+  destruct (aget (sget s (n2p c)) (nodes c)); c_simpl; apply aget_adel_other, Hne.
+Qed.
+
+Lemma update_pod_binds_other key p c : key <> p_key p -> aget key (binds (update_pod p c)) = aget key (binds c).
+Proof.
+  intros Hne. unfold update_pod, update_pod_gen. destruct (p_term p); [apply completion_binds_other, Hne|].
+  destruct (p_node p =s ""); [apply completion_binds_other, Hne|].
+  destruct (aget (sget (p_node p) (n2p c)) (nodes c)); [|reflexivity].
+  rewrite binds_cob_other by assumption. reflexivity.
+Qed.
+
+Lemma cleanup_node_binds a m c : CohI a c -> binds (cleanup_node m c) = binds c.
+Proof.
+  intros H. destruct (aget m (n2p c)) as [X|] eqn:E; [|rewrite cleanup_node_none; auto].
+  destruct (cleanup_node_some a c m X H E) as (s' & nd' & _ & _ & _ & ->). destruct (sn_claim s'); reflexivity.
+Qed.
+
+Lemma cleanup_claim_binds a k c : CohI a c -> binds (cleanup_claim k c) = binds c.
+Proof.
+  intros H. destruct (sget k (c2p c) =s "") eqn:E0.
+  { seq. rewrite cleanup_claim_unlaunched, (ci_np _ _ H) by assumption. reflexivity. }
+  assert (exists X', aget k (c2p c) = Some X' /\ X' <> "") as (X' & E & Hx).
+  { unfold sget in E0. destruct (aget k (c2p c)) as [X'|]; [|discriminate]. exists X'. seq. auto. }
+  destruct (cleanup_claim_some a c k X' H E Hx) as (s' & cl & _ & _ & _ & ->). destruct (sn_node s'); reflexivity.
+Qed.
+
+Lemma update_claim_binds a cl c : CohI a c -> binds (update_claim cl c) = binds c.
+Proof.
+  intros H. destruct (c_pid cl =s "") eqn:Ep; seq.
+  { rewrite update_claim_unlaunched by (assumption || apply H). reflexivity. }
+  destruct (uc_c1_facts a cl c H Ep) as (H1 & _ & _).
+  rewrite update_claim_eq by (assumption || apply H1). c_simpl.
+  unfold uc_c1. destruct (aget (c_name cl) (c2p c)); [|reflexivity].
+  destruct (s =s c_pid cl); [reflexivity|]. apply (cleanup_claim_binds a). exact H.
+Qed.
+
+Lemma update_node_binds a nd c : CohI a c -> trackable nd = true ->
+  binds (update_node a nd c) = binds (un_c1 a nd c).
+Proof.
+  intros H Ht. destruct (un_c2_facts a nd c H) as (H2 & _ & _).
+  rewrite update_node_eq by (assumption || apply H2). c_simpl.
+  unfold un_c2. destruct (aget (n_name nd) (n2p (un_c1 a nd c))); [|reflexivity].
+  destruct (s =s epid nd); [reflexivity|]. apply (cleanup_node_binds a).
+  eapply CohI_same_ids; [|exact H]. apply same_ids_populate.
+Qed.
+
+Lemma SP_preserved a c key o : api_ok a -> CohI a c -> is_deliver o -> SP a c key -> SP a (cache_step a c o) key.
+Proof.
+  intros Hok H Ho Hs Hu. specialize (Hs Hu). unfold cache_step, cache_step_gen. rewrite (ci_np _ _ H).
+  destruct o; try contradiction.
+  - unfold deliver_node_gen. cbn [current v_keep_aggs]. fold cleanup_node. fold update_node.
+    destruct (aget name (a_nodes a)) as [nd|] eqn:Ea; [|rewrite (cleanup_node_binds a); assumption].
+    destruct (trackable nd) eqn:Ht; [|unfold update_node, update_node_gen; rewrite Ht; exact Hs].
+    rewrite update_node_binds by assumption. unfold un_c1.
+    apply (populate_inv (n_name nd) (a_pods a) (fun c' => aget key (binds c') = None)); [|exact Hs].
+    intros k p c' Hin Hon Hq. destruct (string_dec key (p_key p)) as [->|Hne]; [|rewrite binds_cob_other; assumption].
+    exfalso. pose proof Hok as Hok'. destruct Hok as [(_ & _ & Hk) _].
+    assert (Ep : aget (p_key p) (a_pods a) = Some p).
+    { rewrite (proj2 Hk k p Hin). apply in_aget; [apply Hk|exact Hin]. }
+    unfold unbound in Hu. rewrite Ep in Hu. unfold on_node in Hon. apply andb_true_iff in Hon. destruct Hon as [Hn1 Hn2].
+    apply negb_true_iff in Hn2. rewrite Hn2 in Hu. simpl in Hu. seq.
+    destruct (epid_nonempty a _ _ Hok' Ea) as [_ Hname]. apply (node_name_nonempty a _ _ Hok' Ea). congruence.
+  - unfold deliver_claim_gen. cbn [current v_drop_costs negb]. fold update_claim.
+    destruct (aget name (a_claims a)); [rewrite (update_claim_binds a)|rewrite (cleanup_claim_binds a)]; assumption.
+  - unfold deliver_pod_gen. cbn [current v_pending_noop]. fold update_pod.
+    destruct (string_dec key key0) as [<-|Hne].
+    + unfold unbound in Hu. destruct (aget key (a_pods a)) as [p|] eqn:Ep; [|apply completion_binds].
+      assert (Hkey : p_key p = key).
+      { destruct Hok as [(_ & _ & Hk) _]. apply (proj2 Hk). apply aget_in, Ep. }
+      unfold update_pod, update_pod_gen. destruct (p_term p); [rewrite Hkey; apply completion_binds|].
+      simpl in Hu. rewrite Hu, Hkey. apply completion_binds.
+    + destruct (aget key0 (a_pods a)) as [p|] eqn:Ep; [|rewrite completion_binds_other; assumption].
+      assert (Hkey : p_key p = key0).
+      { destruct Hok as [(_ & _ & Hk) _]. apply (proj2 Hk). apply aget_in, Ep. }
+      rewrite update_pod_binds_other; [assumption|congruence].
+Qed.
+
+(* ================= StateNodes without a Node carry no pod aggregates (after 7fed8b92b) ================= *)
+Definition NE (c : cache) : Prop :=
+  forall X s, aget X (nodes c) = Some s -> sn_node s = None -> empty_agg s.
+
+Lemma empty_cleanup k s : empty_agg s -> empty_agg (cleanup_for_pod k s).
+Proof. intros (E1 & E2 & E3 & E4). unfold empty_agg. sn_simpl. rewrite E1, E2, E3. repeat split. Qed.
+
+Lemma NE_set c Y s' : NE c -> (sn_node s' = None -> empty_agg s') -> NE (with_nodes c (aset Y s' (nodes c))).
+Proof.
+  intros H Hs X s. c_simpl. rewrite aget_aset. destruct (X =s Y); [intros [= <-]; exact Hs|apply H].
+Qed.
+
+Lemma NE_del c Y : NE c -> NE (with_nodes c (adel Y (nodes c))).
+Proof. intros H X s. c_simpl. rewrite aget_adel. destruct (X =s Y); [discriminate|apply H]. Qed.
+
+Lemma NE_cob p c : NE c -> NE (cleanup_old_bindings p c).
+Proof.
+  intros H. unfold cleanup_old_bindings. destruct (aget (p_key p) (binds c)); [|exact H].
+  destruct (s =s p_node p); [exact H|]. destruct (aget (sget s (n2p c)) (nodes c)) as [s0|] eqn:E; [|exact H].
+  apply (NE_set c); [exact H|]. intros Hn. apply empty_cleanup. eapply H; eauto.
+Qed.
+
+Lemma NE_completion k c : NE c -> NE (pod_completion k c).
+Proof.
+  intros H. unfold pod_completion. destruct (aget k (binds c)); [|exact H].
+  destruct (aget (sget s (n2p c)) (nodes c)) as [s0|] eqn:E; [|exact H].
+  apply (NE_set c); [exact H|]. intros Hn. apply empty_cleanup. eapply H; eauto.
+Qed.
+
+Lemma NE_update_pod a p c : CohI a c -> NE c -> NE (update_pod p c).
+Proof.
+  intros Hc H. unfold update_pod, update_pod_gen. destruct (p_term p); [apply NE_completion, H|].
+  destruct (p_node p =s ""); [apply NE_completion, H|].
+  destruct (aget (sget (p_node p) (n2p c)) (nodes c)) as [s1|] eqn:E; [|exact H].
+  unfold bind_pod. apply NE_cob. apply (NE_set c); [exact H|]. sn_simpl. intros Hn. exfalso.
+  (* the entry a pod is added to is reached through the node name map, so it has a Node *)
+  unfold sget in E. destruct (aget (p_node p) (n2p c)) as [id|] eqn:En.
+  - destruct (ci_n2p _ _ Hc _ _ En) as (_ & s & nd & F1 & F2 & _). congruence.
+  - eapply (ci_keys _ _ Hc); eauto.
+Qed.
+
+Lemma NE_cleanup_node a m c : CohI a c -> NE c -> NE (cleanup_node m c).
+Proof.
+  intros Hc H. destruct (aget m (n2p c)) as [X|] eqn:E; [|rewrite cleanup_node_none; assumption].
+  destruct (cleanup_node_some a c m X Hc E) as (s & nd & _ & _ & _ & ->).
+  destruct (sn_claim s).
+  - apply (NE_set (upr_c (Some s) (Some (drop_node s)) c)); [exact H|]. intros _. repeat split.
+  - apply (NE_del (upr_c (Some s) None c)). exact H.
+Qed.
+
+Lemma NE_cleanup_claim a k c : CohI a c -> NE c -> NE (cleanup_claim k c).
+Proof.
+  intros Hc H. destruct (sget k (c2p c) =s "") eqn:E0.
+  { seq. rewrite cleanup_claim_unlaunched, (ci_np _ _ Hc) by assumption. exact H. }
+  assert (exists X', aget k (c2p c) = Some X' /\ X' <> "") as (X' & E & Hx).
+  { unfold sget in E0. destruct (aget k (c2p c)) as [X'|]; [|discriminate]. exists X'. seq. auto. }
+  destruct (cleanup_claim_some a c k X' Hc E Hx) as (s & cl & _ & _ & _ & ->).
+  destruct (sn_node s) eqn:En.
+  - apply (NE_set (upr_c (Some s) (Some (drop_claim s)) c)); [exact H|]. simpl. congruence.
+  - apply (NE_del (upr_c (Some s) None c)). exact H.
+Qed.
+
+Lemma NE_update_claim a cl c : CohI a c -> NE c -> NE (update_claim cl c).
+Proof.
+  intros Hc H. destruct (c_pid cl =s "") eqn:Ep; seq.
+  { rewrite update_claim_unlaunched by (assumption || apply Hc). exact H. }
+  destruct (uc_c1_facts a cl c Hc Ep) as (H1 & _ & _).
+  rewrite update_claim_eq by (assumption || apply H1).
+  assert (N1 : NE (uc_c1 cl c)).
+  { unfold uc_c1. destruct (aget (c_name cl) (c2p c)); [|exact H].
+    destruct (s =s c_pid cl); [exact H|]. apply (NE_cleanup_claim a); assumption. }
+  apply (NE_set (upr_c (Some (uc_old cl c)) (Some (uc_n cl c)) (uc_c1 cl c))); [exact N1|].
+  unfold uc_n, uc_old. cbn [sn_node]. destruct (aget (c_pid cl) (nodes c)) as [o|] eqn:Eo.
+  - intros Hn. apply (H _ _ Eo Hn).
+  - intros _. repeat split.
+Qed.
+
+Lemma NE_update_node a nd c : CohI a c -> NE c -> NE (update_node a nd c).
+Proof.
+  intros Hc H. destruct (trackable nd) eqn:Ht; [|unfold update_node, update_node_gen; rewrite Ht; exact H].
+  destruct (un_c2_facts a nd c Hc) as (H2 & _ & _).
+  rewrite update_node_eq by (assumption || apply H2).
+  assert (N1 : CohI a (un_c1 a nd c) /\ NE (un_c1 a nd c)).
+  { unfold un_c1. apply (populate_inv (n_name nd) (a_pods a) (fun c' => CohI a c' /\ NE c')); [|auto].
+    intros k p c' _ _ (Hc' & Hn'). split.
+    - eapply CohI_same_ids; [|exact Hc']. eapply same_ids_trans; [apply same_ids_cob|apply same_ids_binds].
+    - unfold bind_pod. apply NE_cob, Hn'. }
+  destruct N1 as [Hc1 N1].
+  assert (N2 : NE (un_c2 a nd c)).
+  { unfold un_c2. destruct (aget (n_name nd) (n2p (un_c1 a nd c))); [|exact N1].
+    destruct (s =s epid nd); [exact N1|]. apply (NE_cleanup_node a); assumption. }
+  apply (NE_set (upr_c (Some (un_old nd c)) (Some (un_n1 a nd c)) (un_c2 a nd c))); [exact N2|].
+  destruct (pop_ident (n_name nd) (a_pods a) (un_n0 nd c)) as (I1 & _ & _). unfold un_n1. rewrite I1. discriminate.
+Qed.
+
+Lemma NE_deliver a c o : CohI a c -> is_deliver o -> NE c -> NE (cache_step a c o).
+Proof.
+  intros Hc Ho H. unfold cache_step, cache_step_gen. rewrite (ci_np _ _ Hc). destruct o; try contradiction.
+  - unfold deliver_node_gen. cbn [current v_keep_aggs]. fold cleanup_node. fold update_node.
+    destruct (aget name (a_nodes a)); [apply NE_update_node|apply (NE_cleanup_node a)]; assumption.
+  - unfold deliver_claim_gen. cbn [current v_drop_costs negb]. fold update_claim.
+    destruct (aget name (a_claims a)); [apply (NE_update_claim a)|apply (NE_cleanup_claim a)]; assumption.
+  - unfold deliver_pod_gen. cbn [current v_pending_noop]. fold update_pod.
+    destruct (aget key (a_pods a)); [apply (NE_update_pod a)|apply NE_completion]; assumption.
+Qed.
+
+(* ================= the specification's lookups ================= *)
+Lemma find_node_some l X nd : find_node X l = Some nd -> exists k, In (k, nd) l /\ trackable nd = true /\ epid nd = X.
+Proof.
+  induction l as [|[k n] l IH]; simpl; [discriminate|].
+  destruct (trackable n && (epid n =s X)) eqn:E.
+  - intros [= <-]. apply andb_true_iff in E. destruct E as [E1 E2]. seq. exists k. auto.
+  - intros H. destruct (IH H) as (k' & Hin & Ht). exists k'. split; [right; exact Hin|exact Ht].
+Qed.
+
+Lemma find_node_none l X : find_node X l = None -> forall k nd, In (k, nd) l -> trackable nd = true -> epid nd <> X.
+Proof.
+  induction l as [|[k n] l IH]; simpl; [intros _ k nd []|].
+  destruct (trackable n && (epid n =s X)) eqn:E; [discriminate|].
+  intros H k' nd [[= -> ->]|Hin] Ht.
+  - rewrite Ht in E. simpl in E. seq. exact E.
+  - eapply IH; eauto.
+Qed.
+
+Lemma node_at_intro a m nd : api_ok a -> aget m (a_nodes a) = Some nd -> trackable nd = true ->
+  node_at a (epid nd) = Some nd.
+Proof.
+  intros [(Hn & _ & _) (U & _ & _)] E Ht. unfold node_at.
+  destruct (find_node (epid nd) (a_nodes a)) as [nd'|] eqn:F.
+  - destruct (find_node_some _ _ _ F) as (k & Hin & Ht' & He).
+    assert (E' : aget k (a_nodes a) = Some nd') by (apply in_aget; [apply Hn|exact Hin]).
+    assert (k = m) by (eapply U; eauto). subst k. congruence.
+  - exfalso. eapply (find_node_none _ _ F m nd); auto. apply aget_in, E.
+Qed.
+
+Lemma node_at_elim a X nd : api_ok a -> node_at a X = Some nd ->
+  aget (n_name nd) (a_nodes a) = Some nd /\ trackable nd = true /\ epid nd = X.
+Proof.
+  intros [(Hn & _ & _) _] F. destruct (find_node_some _ _ _ F) as (k & Hin & Ht & He).
+  rewrite (proj2 Hn k nd Hin). split; [apply in_aget; [apply Hn|exact Hin]|auto].
+Qed.
+
+Lemma find_claim_some l X cl : find_claim X l = Some cl -> exists k, In (k, cl) l /\ c_pid cl = X.
+Proof.
+  induction l as [|[k c0] l IH]; simpl; [discriminate|].
+  destruct (c_pid c0 =s X) eqn:E.
+  - intros [= <-]. seq. exists k. auto.
+  - intros H. destruct (IH H) as (k' & Hin & Hp). exists k'. split; [right; exact Hin|exact Hp].
+Qed.
+
+Lemma find_claim_none l X : find_claim X l = None -> forall k cl, In (k, cl) l -> c_pid cl <> X.
+Proof.
+  induction l as [|[k c0] l IH]; simpl; [intros _ k cl []|].
+  destruct (c_pid c0 =s X) eqn:E; [discriminate|].
+  intros H k' cl [[= -> ->]|Hin]; [seq; exact E|eapply IH; eauto].
+Qed.
+
+Lemma claim_at_intro a k cl : api_ok a -> aget k (a_claims a) = Some cl -> c_pid cl <> "" ->
+  claim_at a (c_pid cl) = Some cl.
+Proof.
+  intros [(_ & Hc & _) (_ & U & _)] E Hp. unfold claim_at. apply String.eqb_neq in Hp. rewrite Hp.
+  apply String.eqb_neq in Hp.
+  destruct (find_claim (c_pid cl) (a_claims a)) as [cl'|] eqn:F.
+  - destruct (find_claim_some _ _ _ F) as (k' & Hin & He).
+    assert (E' : aget k' (a_claims a) = Some cl') by (apply in_aget; [apply Hc|exact Hin]).
+    assert (k' = k) by (eapply (U k' k cl' cl); eauto; congruence). subst k'. congruence.
+  - exfalso. eapply (find_claim_none _ _ F k cl); auto. apply aget_in, E.
+Qed.
+
+Lemma claim_at_elim a X cl : api_ok a -> claim_at a X = Some cl ->
+  aget (c_name cl) (a_claims a) = Some cl /\ c_pid cl = X /\ X <> "".
+Proof.
+  intros [(_ & Hc & _) _]. unfold claim_at. destruct (X =s "") eqn:E; [discriminate|]. seq. intros F.
+  destruct (find_claim_some _ _ _ F) as (k & Hin & He).
+  rewrite (proj2 Hc k cl Hin). split; [apply in_aget; [apply Hc|exact Hin]|auto].
+Qed.
+
+(* ================= what a fully settled cache looks like ================= *)
+Record Settled (a : api) (c : cache) : Prop := {
+  st_coh : CohI a c;
+  st_ne : NE c;
+  st_npr : Npr c;
+  st_n : forall m, SN a c m;
+  st_c : forall k, SC a c k;
+  st_p : forall key, SP a c key
+}.
+
+Lemma settled_node a c X s nd : api_ok a -> Settled a c -> aget X (nodes c) = Some s -> sn_node s = Some nd ->
+  node_at a X = Some nd /\ rebuilt a (n_name nd) s.
+Proof.
+  intros Hok S Es En. pose proof (ci_nback _ _ (st_coh _ _ S) _ _ _ Es En) as Hb.
+  pose proof (st_n _ _ S (n_name nd)) as Hs. unfold SN in Hs.
+  destruct (spec_n2p a (n_name nd)) as [X'|] eqn:Hspec; [|congruence].
+  destruct Hs as [En2 (s' & nd' & F1 & F2 & F3 & R & _)].
+  assert (X' = X) by congruence. subst X'. assert (s' = s) by congruence. subst s'.
+  assert (nd' = nd) by congruence. subst nd'.
+  unfold spec_n2p in Hspec. rewrite F2 in Hspec. destruct (trackable nd) eqn:Ht; [|discriminate].
+  injection Hspec as <-. split; [eapply node_at_intro; eauto|exact R].
+Qed.
+
+Lemma settled_node_at a c X nd : api_ok a -> Settled a c -> node_at a X = Some nd ->
+  exists s, aget X (nodes c) = Some s /\ sn_node s = Some nd.
+Proof.
+  intros Hok S F. destruct (node_at_elim a X nd Hok F) as (E & Ht & He).
+  pose proof (st_n _ _ S (n_name nd)) as Hs. unfold SN, spec_n2p in Hs. rewrite E, Ht, He in Hs.
+  destruct Hs as [_ (s & nd' & F1 & F2 & F3 & _)]. exists s. split; [exact F1|congruence].
+Qed.
+
+Lemma settled_claim a c X s cl : api_ok a -> Settled a c -> aget X (nodes c) = Some s -> sn_claim s = Some cl ->
+  claim_at a X = Some cl.
+Proof.
+  intros Hok S Es Ec. pose proof (ci_cback _ _ (st_coh _ _ S) _ _ _ Es Ec) as Hb.
+  pose proof (ci_keys _ _ (st_coh _ _ S) _ _ Es) as Hx.
+  pose proof (st_c _ _ S (c_name cl)) as Hs. unfold SC in Hs.
+  destruct (aget (c_name cl) (a_claims a)) as [cl'|] eqn:Ea; [|congruence].
+  destruct Hs as [Ek Ho]. assert (c_pid cl' = X) by congruence. subst X.
+  specialize (Ho Hx). unfold oclaim in Ho. rewrite Es in Ho. assert (cl' = cl) by congruence. subst cl'.
+  eapply claim_at_intro; eauto.
+Qed.
+
+Lemma settled_claim_at a c X cl : api_ok a -> Settled a c -> claim_at a X = Some cl ->
+  exists s, aget X (nodes c) = Some s /\ sn_claim s = Some cl.
+Proof.
+  intros Hok S F. destruct (claim_at_elim a X cl Hok F) as (E & Hp & Hx).
+  pose proof (st_c _ _ S (c_name cl)) as Hs. unfold SC in Hs. rewrite E in Hs. destruct Hs as [_ Ho].
+  rewrite Hp in Ho. specialize (Ho Hx). unfold oclaim in Ho.
+  destruct (aget X (nodes c)) as [s|]; [|discriminate]. exists s. auto.
+Qed.
+
+(* identity of an entry = identity the specification computes *)
+Lemma settled_identity a c X s : api_ok a -> Settled a c -> aget X (nodes c) = Some s ->
+  node_at a X = sn_node s /\ claim_at a X = sn_claim s.
+Proof.
+  intros Hok S Es. split.
+  - destruct (sn_node s) as [nd|] eqn:En; [eapply settled_node; eauto|].
+    destruct (node_at a X) as [nd|] eqn:F; [|reflexivity].
+    destruct (settled_node_at a c X nd Hok S F) as (s' & E' & En'). congruence.
+  - destruct (sn_claim s) as [cl|] eqn:Ec; [eapply settled_claim; eauto|].
+    destruct (claim_at a X) as [cl|] eqn:F; [|reflexivity].
+    destruct (settled_claim_at a c X cl Hok S F) as (s' & E' & Ec'). congruence.
+Qed.
+
+Lemma settled_has a c X : api_ok a -> Settled a c ->
+  spec_has a X = match aget X (nodes c) with Some _ => true | None => false end.
+Proof.
+  intros Hok S. unfold spec_has. destruct (aget X (nodes c)) as [s|] eqn:Es.
+  - destruct (settled_identity a c X s Hok S Es) as [-> ->].
+    pose proof (ci_ident _ _ (st_coh _ _ S) _ _ Es) as Hi. unfold has_identity in Hi.
+    destruct (sn_node s), (sn_claim s); try reflexivity. discriminate.
+  - destruct (node_at a X) as [nd|] eqn:F.
+    + destruct (settled_node_at a c X nd Hok S F) as (s' & E' & _). congruence.
+    + destruct (claim_at a X) as [cl|] eqn:F2; [|reflexivity].
+      destruct (settled_claim_at a c X cl Hok S F2) as (s' & E' & _). congruence.
+Qed.
+
+(* ================= a settled cache equals the recomputation ================= *)
+Lemma aget_map {A B} (f : A -> B) k (m : amap A) :
+  aget k (map (fun kv => (fst kv, f (snd kv))) m) = option_map f (aget k m).
+Proof. induction m as [|[k0 v] m IH]; simpl; [reflexivity|]. destruct (k =s k0); [reflexivity|exact IH]. Qed.
+
+Lemma empty_rebuilt_none s : empty_agg s ->
+  (forall key, aget key (sn_pods s) = None) /\ (forall key, aget key (sn_dsr s) = None) /\
+  (forall key, aget key (sn_costs s) = None) /\ (forall v, mem v (sn_vun s) = false).
+Proof. intros (-> & -> & -> & ->). repeat split. Qed.
+
+Lemma settled_nodes_match a c : api_ok a -> Settled a c -> nodes_match a (view_of c).
+Proof.
+  intros Hok S X. unfold view_of; cbn [vw_nodes]. rewrite aget_map.
+  rewrite (settled_has a c X Hok S).
+  destruct (aget X (nodes c)) as [s|] eqn:Es; cbn [option_map]; [|reflexivity].
+  split; [reflexivity|].
+  destruct (settled_identity a c X s Hok S Es) as [In1 In2].
+  unfold node_matches, vnode_of, spec_sn; cbn [v_node v_claim v_pods v_dsr v_costs v_vun v_marked v_mfd v_pool v_cap sn_node sn_claim].
+  rewrite In1, In2.
+  split; [reflexivity|]. split; [reflexivity|].
+  assert (Agg : (forall key, aget key (sn_pods s) = spec_pent a X key) /\
+                (forall key, aget key (sn_dsr s) = spec_dsr a X key) /\
+                (forall key, aget key (sn_costs s) = spec_cost a X key) /\
+                (forall v, mem v (sn_vun s) = spec_vol a X v)).
+  { unfold spec_pent, spec_dsr, spec_cost, spec_vol. rewrite In1.
+    destruct (sn_node s) as [nd|] eqn:En.
+    - destruct (settled_node a c X s nd Hok S Es En) as [_ (R1 & R2 & R3 & R4)]. auto.
+    - apply empty_rebuilt_none. eapply (st_ne _ _ S); eauto. }
+  destruct Agg as (A1 & A2 & A3 & A4).
+  split; [exact A1|]. split; [exact A2|]. split; [exact A3|]. split; [exact A4|].
+  unfold sn_mfd, sn_deleted, sn_pool, sn_cap, sn_initialized; cbn [sn_node sn_claim sn_marked]. auto.
+Qed.
+
+Lemma settled_maps_match a c : api_ok a -> Settled a c -> maps_match a (view_of c).
+Proof.
+  intros Hok S. split; intros name; unfold view_of; cbn [vw_n2p vw_c2p].
+  - pose proof (st_n _ _ S name) as Hs. unfold SN in Hs. destruct (spec_n2p a name); [apply Hs|exact Hs].
+  - pose proof (st_c _ _ S name) as Hs. unfold SC, spec_c2p in *. destruct (aget name (a_claims a)); [apply Hs|exact Hs].
+Qed.
+
+Definition pods_settled (a : api) : Prop :=
+  forall key p, aget key (a_pods a) = Some p -> p_term p = false -> p_node p <> "" ->
+    spec_n2p a (p_node p) <> None.
+
+Lemma settled_binds_match a c : api_ok a -> pods_settled a -> Settled a c -> binds_match a (view_of c).
+Proof.
+  intros Hok Hps S key. unfold veff_bind, view_of; cbn [vw_binds vw_n2p vw_nodes].
+  unfold spec_bind. destruct (aget key (a_pods a)) as [p|] eqn:Ep.
+  - destruct (p_term p) eqn:Et; cbn [negb andb].
+    { rewrite (st_p _ _ S key); [reflexivity|]. unfold unbound. rewrite Ep, Et. reflexivity. }
+    destruct (p_node p =s "") eqn:E0; cbn [negb andb].
+    { rewrite (st_p _ _ S key); [reflexivity|]. unfold unbound. rewrite Ep, Et, E0. reflexivity. }
+    seq. pose proof (Hps key p Ep Et E0) as Hsp.
+    destruct (spec_n2p a (p_node p)) as [X|] eqn:Hspec; [|congruence].
+    pose proof (st_n _ _ S (p_node p)) as Hs. unfold SN in Hs. rewrite Hspec in Hs.
+    destruct Hs as [En (s & nd & F1 & F2 & F3 & _ & _ & B)].
+    rewrite (B key p).
+    + unfold sget. rewrite En, aget_map, F1. cbn [option_map vnode_of v_node]. rewrite F3.
+      destruct (epid_nonempty a _ _ Hok F2) as [_ Hname].
+      pose proof (node_name_nonempty a _ _ Hok F2) as Hne. rewrite Hname.
+      apply String.eqb_neq in Hne. rewrite Hne. reflexivity.
+    + unfold pod_on. rewrite Ep, Et, seqb_refl. reflexivity.
+  - rewrite (st_p _ _ S key); [reflexivity|]. unfold unbound. rewrite Ep. reflexivity.
+Qed.
+
+Lemma fold_adel_other pool X (m : amap snode) L : ~ In X L ->
+  fold_right (fun X0 acc => radd (ocontrib pool (aget X0 m)) acc) z3 L =
+  fold_right (fun X0 acc => radd (ocontrib pool (aget X0 (adel X m))) acc) z3 L.
+Proof.
+  induction L as [|Y L IHL]; intros Hnin; [reflexivity|]. cbn [fold_right].
+  rewrite aget_adel_other by (intros ->; apply Hnin; left; reflexivity).
+  rewrite IHL; [reflexivity|]. intros Hin. apply Hnin. right. exact Hin.
+Qed.
+
+Lemma sum_over_superset pool L : NoDup L -> forall m : amap snode, nodupk m ->
+  (forall X, In X (map fst m) -> In X L) ->
+  fold_right (fun X acc => radd (ocontrib pool (aget X m)) acc) z3 L = pool_total pool m.
+Proof.
+  induction 1 as [|X L Hnin Hnd IH]; intros m Hm Hsub.
+  - destruct m as [|[k s] m]; [reflexivity|]. exfalso. apply (Hsub k). left. reflexivity.
+  - cbn [fold_right].
+    pose proof (fold_adel_other pool X m L Hnin) as E.
+    rewrite E, (IH (adel X m)).
+    + rewrite pool_total_adel by assumption. generalize (ocontrib pool (aget X m)) (pool_total pool m). intros. res_crush.
+    + apply nodupk_adel, Hm.
+    + intros Y Hy. apply in_keys_adel in Hy. destruct Hy as [Hy Hne].
+      destruct (Hsub Y Hy) as [->|Hin]; [congruence|exact Hin].
+Qed.
+
+Lemma fold_right_ext_in_res (f g : string -> res -> res) (L : list string) :
+  (forall X acc, In X L -> f X acc = g X acc) -> fold_right f z3 L = fold_right g z3 L.
+Proof.
+  induction L as [|X L IH]; intros H; [reflexivity|]. cbn [fold_right].
+  rewrite IH by (intros; apply H; right; assumption). apply H. left. reflexivity.
+Qed.
+
+Lemma settled_pools_match a c : api_ok a -> Settled a c -> pools_match a (view_of c).
+Proof.
+  intros Hok S pool Hpool. unfold view_of at 1; cbn [vw_npr].
+  rewrite (proj2 (st_npr _ _ S) pool Hpool).
+  rewrite <- (sum_over_superset pool (api_pids a)).
+  - unfold spec_total. apply fold_right_ext_in_res.
+    intros X acc _. rewrite (settled_has a c X Hok S).
+    destruct (aget X (nodes c)) as [s|] eqn:Es; cbn [ocontrib]; [|apply radd_z3_l].
+    destruct (settled_identity a c X s Hok S Es) as [In1 In2].
+    f_equal. apply contrib_ident. unfold ident, spec_sn; cbn [sn_node sn_claim sn_marked].
+    rewrite In1, In2. unfold vmarked, view_of; cbn [vw_nodes]. rewrite aget_map, Es. reflexivity.
+  - apply NoDup_nodup.
+  - apply (st_npr _ _ S).
+  - intros X Hin. apply nodup_In. apply in_or_app.
+    destruct (aget X (nodes c)) as [s|] eqn:Es; [|apply aget_none_notin in Es; contradiction].
+    destruct (settled_identity a c X s Hok S Es) as [In1 In2].
+    pose proof (ci_ident _ _ (st_coh _ _ S) _ _ Es) as Hi. unfold has_identity in Hi.
+    destruct (sn_node s) as [nd|] eqn:En.
+    + left. destruct (node_at_elim a X nd Hok In1) as (E & _ & He). rewrite <- He.
+      apply (in_map (fun kv => epid (snd kv)) _ (n_name nd, nd)). apply aget_in, E.
+    + destruct (sn_claim s) as [cl|] eqn:Ec; [|discriminate]. right.
+      destruct (claim_at_elim a X cl Hok In2) as (E & He & _). rewrite <- He.
+      apply (in_map (fun kv => c_pid (snd kv)) _ (c_name cl, cl)). apply aget_in, E.
 Qed.
